@@ -178,7 +178,105 @@ fn render_reset_io() {
     vk::vk_cover!(!plain, "non-plain style");
 }
 
-// ---- 5. Display paths and format flags on concrete styles (BOUNDED: core::fmt with symbolic data does not finish) ----
+// ---- 5. Display paths and format flags: every style x every flag combination ----
+//
+// The harness builds a core::fmt::Formatter directly (unstable `formatting_options`, available on
+// Kani's nightly and on the nightly used for native replay) and calls the Display impls
+// statically: going through format_args! means function pointers inside fmt::Arguments, on which
+// CBMC does not finish for symbolic data (measured).  Width, fill, alignment, precision, zero
+// padding and the alternate flag are all symbolic.
+
+/// records every non-empty piece handed to write_str / write_all, copied at fixed positions
+struct Pieces {
+    calls: usize,
+    len: [usize; 16],
+    data: [[u8; 19]; 16],
+    too_long: bool,
+}
+
+impl Pieces {
+    fn new() -> Self {
+        Pieces { calls: 0, len: [0; 16], data: [[0; 19]; 16], too_long: false }
+    }
+    fn take(&mut self, b: &[u8]) {
+        if b.is_empty() {
+            return;
+        }
+        if b.len() > 19 || self.calls >= 16 {
+            self.too_long = true;
+            return;
+        }
+        let i = self.calls;
+        self.len[i] = b.len();
+        let mut k = 0;
+        while k < 19 {
+            if k < b.len() {
+                self.data[i][k] = b[k];
+            }
+            k += 1;
+        }
+        self.calls += 1;
+    }
+    fn same(&self, o: &Pieces) -> bool {
+        if self.too_long || o.too_long || self.calls != o.calls {
+            return false;
+        }
+        let mut i = 0;
+        while i < 16 {
+            if i < self.calls {
+                if self.len[i] != o.len[i] {
+                    return false;
+                }
+                let mut k = 0;
+                while k < 19 {
+                    if k < self.len[i] && self.data[i][k] != o.data[i][k] {
+                        return false;
+                    }
+                    k += 1;
+                }
+            }
+            i += 1;
+        }
+        true
+    }
+}
+
+impl core::fmt::Write for Pieces {
+    fn write_str(&mut self, s: &str) -> core::fmt::Result {
+        self.take(s.as_bytes());
+        Ok(())
+    }
+}
+
+impl std::io::Write for Pieces {
+    fn write(&mut self, b: &[u8]) -> std::io::Result<usize> {
+        self.take(b);
+        Ok(b.len())
+    }
+    fn write_all(&mut self, b: &[u8]) -> std::io::Result<()> {
+        self.take(b);
+        Ok(())
+    }
+    fn flush(&mut self) -> std::io::Result<()> {
+        Ok(())
+    }
+}
+
+fn any_options() -> core::fmt::FormattingOptions {
+    let mut o = core::fmt::FormattingOptions::new();
+    o.alternate(vk::any_bool());
+    o.sign_aware_zero_pad(vk::any_bool());
+    o.fill(if vk::any_bool() { ' ' } else { '*' });
+    o.align(match vk::any_u8_in(0, 3) {
+        0 => None,
+        1 => Some(core::fmt::Alignment::Left),
+        2 => Some(core::fmt::Alignment::Right),
+        _ => Some(core::fmt::Alignment::Center),
+    });
+    o.width(if vk::any_bool() { Some(vk::any_u16()) } else { None });
+    o.precision(if vk::any_bool() { Some(vk::any_u16()) } else { None });
+    o
+}
 
 fn sample_style(k: u8) -> Style {
     match k {
@@ -190,69 +288,60 @@ fn sample_style(k: u8) -> Style {
     }
 }
 
-macro_rules! display_eq {
+/// `{}` / `{:#}` with any width, fill, alignment, precision and zero padding write exactly the
+/// pieces the io::Write path writes: no padding, no truncation.  The style is one of five concrete
+/// samples per harness (a symbolic style together with symbolic flags runs out of memory in
+/// CBMC, measured) — BOUNDED in the style, complete in the flags; that every style's io::Write
+/// output is the concatenation of its parts is render_style_concat (complete).
+fn display_matches_io(k: u8) {
+    let s = sample_style(k);
+    let o = any_options();
+    let alternate = o.get_alternate();
+    let mut d = Pieces::new();
+    let r = {
+        let mut f = core::fmt::Formatter::new(&mut d, o);
+        core::fmt::Display::fmt(&s, &mut f)
+    };
+    assert!(r.is_ok(), "formatting a style does not fail");
+    let mut w = Pieces::new();
+    let rw = if alternate { s.write_reset_to(&mut w) } else { s.write_to(&mut w) };
+    assert!(rw.is_ok(), "writing a style to a good writer does not fail");
+    assert!(d.same(&w), "the Display path with any width, fill, alignment and precision produces the bytes of the io::Write path: no padding, no truncation");
+    // the other Display entry points
+    let mut d2 = Pieces::new();
+    {
+        let mut f = core::fmt::Formatter::new(&mut d2, o);
+        let _ = if alternate { core::fmt::Display::fmt(&s.render_reset(), &mut f) } else { core::fmt::Display::fmt(&s.render(), &mut f) };
+    }
+    assert!(d2.same(&w), "Style::render() / render_reset() display the same bytes whatever the format flags");
+    vk::vk_cover!(alternate && o.get_width().is_some(), "reset form with a width");
+    vk::vk_cover!(!alternate && o.get_precision().is_some(), "style with a precision");
+}
+
+macro_rules! display_case {
     ($name:ident, $k:expr) => {
-        #[cfg_attr(kani, kani::proof, kani::unwind(50))]
+        #[cfg_attr(kani, kani::proof, kani::unwind(20))]
         #[cfg_attr(not(kani), test)]
         fn $name() {
-            let s = sample_style($k);
-            let mut w: Buf<48> = Buf::new();
-            let _ = s.write_to(&mut w);
-            let mut d: Buf<48> = Buf::new();
-            let r = core::fmt::write(&mut d, format_args!("{}", s));
-            assert!(r.is_ok() && d.same(&w), "Display path and io::Write path produce the same bytes");
-            let mut d2: Buf<48> = Buf::new();
-            let _ = core::fmt::write(&mut d2, format_args!("{}", s.render()));
-            assert!(d2.same(&w), "Style::render() displays like the style");
-            assert!(sgr_bytes(M_DEFAULT, &w.b, w.len, true) == Pure::Ok(model_of(s)), "the rendered style interprets to exactly the style");
-            // reset forms
-            let mut a: Buf<48> = Buf::new();
-            let _ = core::fmt::write(&mut a, format_args!("{:#}", s));
-            let mut b: Buf<48> = Buf::new();
-            let _ = core::fmt::write(&mut b, format_args!("{}", s.render_reset()));
-            let mut c: Buf<48> = Buf::new();
-            let _ = s.write_reset_to(&mut c);
-            assert!(a.same(&c) && b.same(&c), "the three reset paths produce the same bytes");
+            display_matches_io($k);
         }
     };
 }
-display_eq!(render_display_eq_s0, 0);
-display_eq!(render_display_eq_s1, 1);
-display_eq!(render_display_eq_s2, 2);
-display_eq!(render_display_eq_s3, 3);
-display_eq!(render_display_eq_s4, 4);
-
-macro_rules! flag_harness {
-    ($name:ident, $fmt:literal, $base:literal, $k:expr, $msg:literal) => {
-        #[cfg_attr(kani, kani::proof, kani::unwind(50))]
-        #[cfg_attr(not(kani), test)]
-        fn $name() {
-            let s = sample_style($k);
-            let mut a: Buf<48> = Buf::new();
-            let mut b: Buf<48> = Buf::new();
-            let ra = core::fmt::write(&mut a, format_args!($fmt, s));
-            let rb = core::fmt::write(&mut b, format_args!($base, s));
-            assert!(ra.is_ok() && rb.is_ok(), "formatting does not fail");
-            assert!(a.same(&b), $msg);
-        }
-    };
-}
-
-flag_harness!(render_flags_width_right, "{:>10}", "{}", 2, "width and right alignment never pad a rendered style");
-flag_harness!(render_flags_fill_center, "{:*^7}", "{}", 4, "fill and centre alignment never pad a rendered style");
-flag_harness!(render_flags_precision, "{:<3.1}", "{}", 3, "precision never truncates a rendered style");
-flag_harness!(render_flags_alt_width, "{:>#8}", "{:#}", 1, "width and alignment never pad the reset form");
-flag_harness!(render_flags_alt_precision, "{:#.2}", "{:#}", 2, "precision never truncates the reset form");
-flag_harness!(render_flags_alt_fill_plain, "{:-<#12}", "{:#}", 0, "fill never pads the (empty) reset form of a plain style");
+display_case!(render_display_matches_io_s0, 0);
+display_case!(render_display_matches_io_s1, 1);
+display_case!(render_display_matches_io_s2, 2);
+display_case!(render_display_matches_io_s3, 3);
+display_case!(render_display_matches_io_s4, 4);
 
 /// Reset renders a reset
 #[cfg_attr(kani, kani::proof, kani::unwind(16))]
 #[cfg_attr(not(kani), test)]
 fn render_reset_value() {
     let mut d: Buf<8> = Buf::new();
-    let _ = core::fmt::write(&mut d, format_args!("{}", Reset.render()));
-    assert!(sgr_bytes(model_of(sample_style(4)), &d.b, d.len, false) == Pure::Ok(M_DEFAULT) && d.len > 0, "Reset renders a pure-SGR reset");
-    let mut e: Buf<8> = Buf::new();
-    let _ = core::fmt::write(&mut e, format_args!("{:>9}", Reset));
-    assert!(e.same(&d), "Reset ignores width/alignment flags");
+    {
+        let mut f = core::fmt::Formatter::new(&mut d, any_options());
+        let _ = core::fmt::Display::fmt(&Reset, &mut f);
+    }
+    let from = MStyle { fg: MColor::Idx(vk::any_u8()), bg: MColor::Ansi(3), ul: MColor::Rgb(1, 2, 3), eff: vk::any_u16() & 4095 };
+    assert!(sgr_bytes(from, &d.b, d.len, false) == Pure::Ok(M_DEFAULT) && d.len > 0, "Reset renders a pure-SGR reset whatever the format flags");
 }
